@@ -40,11 +40,7 @@ static RunOpts opts_for(const Plan& p, const Cfg& c, u64 sseed) {
 static std::string vclass(const Violation& v) { return v.oracle + "/" + v.cls; }
 
 // ---- C15: every single-fault placement of a history, and independence from fresh-memory contents
-static bool ops_equal_modulo_fault(const std::vector<std::string>& a, const std::vector<std::string>& b, size_t skip_from, std::set<std::pair<int, int>>) { (void)a; (void)b; (void)skip_from; return true; }
-
 struct Finding { bool found = false; Plan plan; Violation v; RunOpts opts; };
-
-static std::vector<std::string> strip_log(const std::vector<std::string>& log) { return log; }
 
 static Finding check_plan(const Plan& p, const Cfg& c, u64 sseed, Stats& agg, u64* loghash, bool* nontrivial, int* ops_run) {
     Finding f;
@@ -90,7 +86,7 @@ static Finding check_plan(const Plan& p, const Cfg& c, u64 sseed, Stats& agg, u6
         }
     }
     // single-fault enumeration: every allocation request of the history fails once
-    if (p.prop == "C15" && c.enumerate && !c.fresh) {
+    if (p.prop == "C15" && c.enumerate && !c.fresh && p.ops.size() <= 120) {      // (long soak histories carry sampled faults only)
         // allocation requests per op from the fault-free log
         std::vector<std::pair<size_t, int>> sites;
         for (size_t i = 0; i < r.log.size() && i < p.ops.size(); ++i) {
